@@ -450,6 +450,13 @@ add("C25", "fixed", "chain:sort-map-compact-join:raises-FilterArgumentError", "s
     "was compared with them) although such items are documented to go last; compact kept the null object that map puts in for a missing property (the reference's own map | compact example)",
     [{"kind": "chain", "chain": "sort-last-has-no-key", "l": V.enc([{"k": 2}, {}, {"k": 1}]), "k": "k", "async": False}, {"kind": "chain", "chain": "map-compact-size", "l": V.enc([{"k": 2}, {}, {"k": 1}]), "k": "k", "async": False}], "8a73529")
 
+add("C02", "fixed", "escape:KeyError@builtin/tags/for_tag.py:ForLoop.__getitem__", "the loop helpers (forloop, tablerowloop) are mappings whose __iter__ steps the loop: a template that loops over one, compares it or uses it in "
+    "case/when went through Mapping's derived views, advanced the enclosing loop and raised a bare KeyError", [c02("{% for i in (1..2) %}{% for b in forloop %}{{ b }}{% endfor %}{% endfor %}"),
+    c02("{% for i in (1..2) %}{% if forloop == h %}y{% endif %}{% endfor %}", {"h": {"a": 1}}), c02("{% tablerow i in (1..2) %}{% for b in tablerowloop %}x{% endfor %}{% endtablerow %}")], "b3843b2")
+add("C02", "fixed", "escape:AttributeError@builtin/filters/array.py:uniq", "uniq on the block drop (any iterable that is not a list): AttributeError 'no attribute index'; the date filter on a 30-digit number followed by 'hours': "
+    "decimal.InvalidOperation out of dateutil; {% render name %} inside an extends chain with any truthy render value under that name: AttributeError while the chain's blocks are collected",
+    [c02("{% block b %}{{ block | uniq }}{% endblock %}"), c02("{{ '111111111111111111111111111111hours' | date: '%Y' }}"), c02("{% extends 'base' %}{% block b %}{% render x %}{% endblock %}", {"x": "abc"})], "b720809")
+
 if __name__ == "__main__":
     # further entries are appended by tools/mkfindings.py from triaged replay files and kept in findings_extra.json
     extra_path = os.path.join(VERIF, "tools", "findings_extra.json")
